@@ -86,14 +86,16 @@ class Func:
             while stack:
                 n = stack.pop()
                 out.append(n)
+                if isinstance(n, (ast.FunctionDef, ast.AsyncFunctionDef, ast.ClassDef, ast.Lambda)):
+                    # nested scope: only decorators and argument defaults are evaluated here
+                    if not isinstance(n, ast.Lambda):
+                        for d in reversed(n.decorator_list):
+                            stack.append(d)
+                    if not isinstance(n, ast.ClassDef):
+                        for d in reversed(n.args.defaults + [x for x in n.args.kw_defaults if x is not None]):
+                            stack.append(d)
+                    continue
                 for c in reversed(list(ast.iter_child_nodes(n))):
-                    if isinstance(c, (ast.FunctionDef, ast.AsyncFunctionDef, ast.ClassDef)):
-                        # decorators and defaults are evaluated in this scope
-                        out.append(c)
-                        continue
-                    if isinstance(c, ast.Lambda):
-                        out.append(c)
-                        continue
                     stack.append(c)
             self._own_nodes = out
         return self._own_nodes
